@@ -174,6 +174,97 @@ def inject(tokens, kind, fault, pos, rng):
     return None
 
 
+PLAIN_XTA = '''clock x; int g0 = 1; chan c;
+const int N = 3;
+int f(int a) {
+  return a + g0;
+}
+process P(const int k) {
+  int lv;
+  state A { x <= 5 }, B;
+  init A;
+  trans A -> B {
+    select s : int[0,3];
+    guard g0 == 1 && s < k;
+    sync c!;
+    assign lv = f(s), x = 0;
+  }, B -> A { guard lv > N; };
+}
+Q = P(2);
+system Q;
+'''
+
+
+def plain_text(run, rng, n):
+    """plain-text (XTA) input: every diagnostic carries the empty path, a line of the text, columns inside that line with start not after end; a fault put on one
+    line is reported on that line, and an undeclared identifier by exactly its own range.  Layout varies: extra blank lines, indentation, comments before the fault."""
+    cases = []
+    base = PLAIN_XTA.split('\n')
+    uses = [(li, m.start(), m.group(0)) for li, l in enumerate(base) for m in re.finditer(r'\b(g0|lv|k|s|N|x|a)\b', l)
+            if not re.match(r'\s*(clock|const|int|process|select)\b', l) or (l.strip().startswith('int f') is False and '=' in l and m.start() > l.index('='))]
+    for k in range(n):
+        lines = list(base)
+        li, col, name = rng.choice(uses)
+        kind = rng.choice(['undeclared', 'undeclared', 'stray', 'dropped'])
+        pad = rng.choice(['', '', '  ', '\t', '/* c */ '])
+        if kind == 'undeclared':
+            lines[li] = pad + lines[li][:col] + 'zz9' + lines[li][col + len(name):]
+            want = (col + len(pad), col + len(pad) + 3)
+        elif kind == 'stray':
+            lines[li] = pad + lines[li][:col] + ') ' + lines[li][col:]
+            want = None
+        else:
+            lines[li] = pad + lines[li][:col] + lines[li][col + len(name):]
+            want = None
+        shift = 0
+        if rng.random() < 0.5:                      # blank and comment lines before the fault move it down
+            extra = rng.choice([[''], ['// a comment line', ''], ['/* a comment', '   over two lines */']])
+            at = rng.randrange(0, li + 1)
+            lines[at:at] = extra
+            shift = len(extra)
+        cases.append(dict(kind=kind, line=li + 1 + shift, want=want, text='\n'.join(lines), name=name))
+    j = vlib.Job()
+    j.case('clean', fork=True).model('xta', PLAIN_XTA).dump('errors').end()
+    for k, c in enumerate(cases):
+        j.case('x%d' % k, fork=True).model('xta', c['text']).dump('errors').end()
+    rr = vlib.run_jobs(j)
+    if any(l.startswith('error') for l in rr['clean']['cmds'][1][2]):
+        run.tie_broken('the fault-free plain-text model is not accepted', rr['clean']['cmds'][1][2][:3])
+        return 0
+    for k, c in enumerate(cases):
+        r = rr['x%d' % k]
+        if r['status'] != 'ok':
+            run.fail('parser crashed on a faulted plain-text model', dict(text=c['text'], status=r['status']), shape='crash:plain-text')
+            continue
+        tl = c['text'].split('\n')
+        errs = []
+        for l in r['cmds'][1][2]:
+            m = re.match(r'(error|warning) msg="(.*?)" ctx="(.*?)" path="(.*?)" line=(\d+)\.\.(\d+) col=(\d+)\.\.(\d+) abs=(\d+)\.\.(\d+)', l)
+            if m:
+                errs.append(dict(kind=m.group(1), msg=m.group(2), path=m.group(4), l1=int(m.group(5)), l2=int(m.group(6)), c1=int(m.group(7)), c2=int(m.group(8)), a1=int(m.group(9))))
+        for e in errs:
+            what = None
+            if e['a1'] >= 2147483647: what = 'has no position'
+            elif e['path'] != '': what = 'carries the path %r for plain-text input' % e['path']
+            elif not (1 <= e['l1'] <= e['l2'] <= len(tl)): what = 'line %d..%d outside the text (%d lines)' % (e['l1'], e['l2'], len(tl))
+            elif e['l1'] == e['l2'] and e['c1'] > e['c2']: what = 'range starts after it ends'
+            elif e['c1'] > len(tl[e['l1'] - 1]) or e['c2'] > len(tl[e['l2'] - 1]): what = 'column %d..%d outside line %r' % (e['c1'], e['c2'], tl[e['l1'] - 1][:40])
+            if what:
+                run.fail('plain-text input: diagnostic %r %s' % (e['msg'], what), dict(text=c['text'], error=e, fault=c['kind']), shape='plain-text:bad-position:' + re.sub(r'\d+', 'N', what)[:30])
+        real = [e for e in errs if e['kind'] == 'error']
+        if not real:
+            continue           # the edit left a valid model
+        if not any(e['l1'] <= c['line'] <= e['l2'] for e in real):
+            run.fail('plain-text input: a fault (%s of %s) on line %d is reported on line(s) %s only' % (c['kind'], c['name'], c['line'], sorted({e['l1'] for e in real})),
+                     dict(text=c['text'], errors=real[:3], line=c['line']), shape='plain-text:wrong-line:' + c['kind'])
+        if c['want']:
+            ue = [e for e in real if 'zz9' in e['msg']]
+            if ue and not any((e['l1'], e['l2'], e['c1'], e['c2']) == (c['line'], c['line'], c['want'][0], c['want'][1]) for e in ue):
+                run.fail('plain-text input: the undeclared identifier on line %d, columns %d..%d is reported at %d:%d..%d:%d' % (c['line'], c['want'][0], c['want'][1], ue[0]['l1'], ue[0]['c1'], ue[0]['l2'], ue[0]['c2']),
+                         dict(text=c['text'], error=ue[0]), shape='plain-text:identifier-range')
+    return len(cases)
+
+
 def check(run):
     thorough = run.tier == 'thorough'
     rng = run.rng
@@ -341,7 +432,8 @@ def check(run):
             pmism.append(dict(block=c['block'], text=text[:200], model=[ml1, mc1, ml2, mc2], implementation=[e['l1'], e['c1'], e['l2'], e['c2']]))
     if pmism:
         run.tie_broken('line/column model vs implementation on undeclared-identifier faults', pmism[:5] + [dict(total=len(pmism))])
-    run.cov.update(evaluations=len(cases), distinct_nontrivial=len({c['xml'] for c in cases}), traces_validated_against_impl=len(qmeta),
+    npt = plain_text(run, rng, 400 if thorough else 120)
+    run.cov.update(plain_text_cases=npt, evaluations=len(cases) + npt, distinct_nontrivial=len({c['xml'] for c in cases}), traces_validated_against_impl=len(qmeta),
                    rule='%d base models x 14 text blocks x 7 fault kinds at token positions (all positions in the thorough tier, 4 per block otherwise), laid out in 6 styles (plain, blank lines, comments incl. multi-line, CRLF line ends (as character references, which survive XML line-end normalisation), '
                         'continuations, mixed); every diagnostic: XPath selects exactly one element of an independent DOM (xml.etree), line inside the element text, columns inside the line, start <= end; at least one error in the '
                         'faulted block and none elsewhere for non-declaring labels; undeclared identifiers: range predicted by the extracted Coq position model from the block\'s lexemes' % nmodels,
